@@ -68,7 +68,11 @@ fn main() {
         ctx.finish("replay of one case", false);
     }
     let ctx = &ctx;
-    let specs = input_family(ctx.thorough());
+    let mut specs = input_family(ctx.thorough());
+    if let Some(f) = cli_run::dev_filter() {
+        specs.retain(|s| s.label().contains(&f));
+        ctx.cap_hit(&format!("VERIF_CLI_ONLY={f}: only {} inputs explored", specs.len()));
+    }
     let cpu0 = cli_run::children_cpu_ms();
     par_for(specs.len() as u64, 1, |i| {
         let spec = &specs[i as usize];
@@ -94,6 +98,7 @@ fn main() {
     );
     ctx.assume("inputs are what the extractor can emit: blocks with 0, 1 or [CBRANCH, BRANCH] jumps, TIDs sub_/blk_/instr_, extern symbols with the default calling convention, register tables that contain every register used");
     ctx.assume("a check whose warning concerns the whole binary (CWE215, CWE332) defines no address; every other check must report at least one");
+    ctx.assume("a warning names a known check with its version if some known check M reports under that CWE identifier and the version is M's; documented identifiers: CWE119 -> CWE119/CWE125/CWE787, CWE416 -> CWE416/CWE415, Memory -> CWE476, every other check its own name");
     ctx.assume("the table of known checks and versions is the library's get_modules(); the canonical order is the derived Ord of CweWarning re-implemented on the parsed JSON");
     ctx.finish(
         "one case = (P-Code project, ELF image, CLI selection); every case is run through the real cwe_checker binary; oracle: exit status 0, stderr empty apart from hook lines, stdout a JSON array of well-formed warnings with known name, that check's version, addresses where defined, sorted in canonical order; non-trivial = the run reported at least one warning",
